@@ -171,7 +171,7 @@ impl Runner {
         let n_out = w.outcomes.len();
         if matches!(
             ev,
-            Ev::AddDim { .. } | Ev::DelDim { .. } | Ev::AddAttr { .. } | Ev::DelAttr { .. } | Ev::RenameAttr { .. } | Ev::DisableAttr { .. } | Ev::Rekey { .. } | Ev::Prune { .. } | Ev::Restore { .. } | Ev::RequestRefresh { .. }
+            Ev::AddDim { .. } | Ev::DelDim { .. } | Ev::AddAttr { .. } | Ev::DelAttr { .. } | Ev::RenameAttr { .. } | Ev::DisableAttr { .. } | Ev::Rekey { .. } | Ev::Prune { .. } | Ev::Restore { .. } | Ev::RequestRefresh { .. } | Ev::ChurnIds { .. }
         ) {
             w.epoch += 1;
         }
@@ -213,6 +213,16 @@ impl Runner {
             Ev::SweepUsk { user } => w.sweep_usk(*user),
             Ev::SweepHostile { target, parser, stride } => sweep_hostile(w, target, parser, *stride),
             Ev::ScaleProbe { n } => scale_probe(w, *n),
+            Ev::ChurnIds { dim, n } => w.ev_churn_ids(dim, *n),
+            Ev::KeygenBurst { user, pol, n } => {
+                for _ in 0..*n {
+                    w.ev_keygen(*user, pol);
+                    w.outcomes.pop();
+                }
+                w.stats.probe("keygen-burst");
+                w.outcomes.push("keygen-burst".into());
+            }
+            Ev::PqBinding { user, slot } => w.ev_pq_binding(*user, *slot),
             Ev::EncryptOtherThread { enc, pol, n } => w.ev_encrypt_other_thread(*enc, pol, *n),
         }
         if w.outcomes.len() == n_out {
@@ -414,7 +424,9 @@ pub fn run_seed(prop: &str, seed: u64, thorough: bool, record: Option<&str>) -> 
     for ev in gen.prelude(&mut rng) {
         runner.apply(&ev);
     }
-    if prop == "C13" && rng.pct(4) {
+    // durable state written by the pinned release, read and used by the current tree (C13);
+    // C03 and C11 own the identity and flavour observations made on it
+    if (prop == "C13" && rng.pct(4)) || (matches!(prop, "C03" | "C11") && rng.pct(2)) {
         runner.apply(&Ev::Golden);
     }
     if huge {
